@@ -284,6 +284,26 @@ def provenance(ctx, func, expr, depth=0, seen=None):
             return {'element'}
         return {f'other:{norm(e)[:60]}'}
     if isinstance(e, ast.Attribute):
+        # a local alias of a path (`_wn = self._wordnet`) is resolved first
+        root = e
+        while isinstance(root, ast.Attribute):
+            root = root.value
+        if isinstance(root, ast.Name) and root.id != 'self' and depth < 4:
+            sites = binding_sites(func.node, root.id)
+            if len(sites) == 1 and sites[0][0] == 'assign':
+                v = sites[0][1]
+                rv = v
+                while isinstance(rv, ast.Attribute):
+                    rv = rv.value
+                if isinstance(v, (ast.Attribute, ast.Name)) and isinstance(rv, ast.Name):
+                    from .inline import clone
+
+                    def rebuild(n):
+                        if n is root:
+                            return clone(v)
+                        c = ast.Attribute(value=rebuild(n.value), attr=n.attr, ctx=ast.Load())
+                        return c
+                    return provenance(ctx, func, rebuild(e), depth + 1, seen)
         if e.attr == '_lexicon_ids':
             base = e.value
             if isinstance(base, ast.Name):
